@@ -440,9 +440,13 @@ struct Engine
         m.exists = true;
         const size_t n = 1 + static_cast<size_t>(rng.below(max_n));
         m.cap = n + static_cast<size_t>(rng.below(3));
-        for (size_t i = 0; i < Cfg::N_FIXED; ++i) m.fixed.push_back(static_cast<size_t>(rng.below(4)));
+        // mostly short spans; a third of the cases use long ones so that the coalesced byte runs (memmove / byte swap of
+        // consecutive trivial fields) take every length, including multiples of typical block sizes
+        const bool large = rng.chance(1, 3);
+        auto span_len = [&]() { return static_cast<size_t>(large ? rng.below(41) : rng.below(4)); };
+        for (size_t i = 0; i < Cfg::N_FIXED; ++i) m.fixed.push_back(span_len());
         std::vector<size_t> counts;
-        for (size_t i = 0; i < Cfg::N_VARYING; ++i) counts.push_back(static_cast<size_t>(rng.below(4)));
+        for (size_t i = 0; i < Cfg::N_VARYING; ++i) counts.push_back(span_len());
         m.arena = K::ALWAYS_EQUAL ? 0 : 1;
         size_t per = 0;
         {
